@@ -216,6 +216,14 @@ var c13Pool = []bareItem{
 	{"activity", "https://example.com/d", "Create"},
 }
 
+// a second pool with pairwise distinct but path-nested ids (an actor and things below it)
+var c13NestedPool = []bareItem{
+	{"activity", "https://example.com/actors/jdoe/outbox/1", "Create"},
+	{"actor", "https://example.com/actors/jdoe", "Person"},
+	{"object", "https://example.com/items/12", "Note"},
+	{"iri", "https://example.com/items/1", ""},
+}
+
 // pools whose members are NOT pairwise distinct (scheme/case/slash variants, iri vs object of one id)
 var c13LoosePools = [][]bareItem{
 	{{"iri", "https://example.com/a", ""}, {"iri", "http://EXAMPLE.com/a/", ""}, {"object", "https://example.com/a", "Note"}, {"object", "https://example.com/b", "Note"}},
@@ -236,7 +244,7 @@ func c13Ops(kind string, n int) [][]interface{} {
 
 func init() {
 	campaigns["C13"] = func(c *Ctx) {
-		c.Rule = "histories of Append/Contains/Remove/Count (Remove through the item-list view; IRI lists: no Remove) over a pool of 4 items of mixed shapes (IRI, object, actor, activity) with pairwise distinct ids, for each of the 6 collection kinds: exhaustive to a length bound (item list: 4 quick / 5 thorough; other kinds: 3 / 4), random to length 40; plus pools with equivalent ids (scheme/case/slash/query-order variants, IRI vs object of one id) for the model/code correspondence only. After every step contents, Count and Contains are compared with a reference insertion-ordered set. Non-trivial = at least one operation."
+		c.Rule = "histories of Append/Contains/Remove/Count (Remove through the item-list view; IRI lists: no Remove) over pools of 4 items of mixed shapes (IRI, object, actor, activity) with pairwise distinct ids (one flat, one with path-nested ids), for each of the 6 collection kinds: exhaustive to a length bound (item list: 4 quick / 5 thorough; other kinds: 3 / 4), random to length 40; plus pools with equivalent ids (scheme/case/slash/query-order variants, IRI vs object of one id) for the model/code correspondence only. After every step contents, Count and Contains are compared with a reference insertion-ordered set. Non-trivial = at least one operation."
 		for _, kind := range collKinds {
 			maxLen := c.N(3, 4)
 			if kind == "ItemCollection" {
@@ -269,7 +277,11 @@ func init() {
 				if init == nil {
 					init = []int{}
 				}
-				c13Case(c, collCase{Kind: kind, Pool: c13Pool, Init: init, Ops: h, Distinct: true})
+				pool := c13Pool
+				if i%2 == 1 {
+					pool = c13NestedPool
+				}
+				c13Case(c, collCase{Kind: kind, Pool: pool, Init: init, Ops: h, Distinct: true})
 			}
 			for i := 0; i < c.N(600, 20000); i++ {
 				pool := c13LoosePools[c.R.Intn(len(c13LoosePools))]
